@@ -66,6 +66,17 @@ func SetKnob(name string, v int) {
 	knobs[name] = v
 }
 
+// Current returns the index of the task the scheduler is running, or -1 when
+// no scheduled execution is in progress.
+//
+//go:norace
+func Current() int {
+	if !active {
+		return -1
+	}
+	return cur
+}
+
 //go:norace
 func Steps() uint64 { return steps }
 
